@@ -7,6 +7,7 @@ import (
 	"os"
 	"os/exec"
 	"path/filepath"
+	"sync"
 	"syscall"
 	"time"
 )
@@ -161,6 +162,47 @@ func runC16(em *vEmitter, r *vRng) {
 		if n.base != ms.base {
 			os.RemoveAll(n.base)
 		}
+	}
+	// concurrent requests for the same new name in both classes: however they interleave, the store never
+	// ends up with two files for one user and stays valid (judged by the model's check of the final directory)
+	for k := 0; k < 6; k++ {
+		ms := mNewStore("c16c", r, 2) // scrypt default: hashing takes long enough for requests to overlap
+		ms.params[1].Cost = 12
+		ms.writeCfg()
+		ms.plant("root", true, 1, 1600000000, r.bytes(16), []byte("rootpw"), "")
+		st, err := NewStore(ms.cfgfile, "", "", "", "")
+		if err != nil {
+			panic(err)
+		}
+		var wg sync.WaitGroup
+		oks := make([]bool, 8)
+		for g := 0; g < 8; g++ {
+			wg.Add(1)
+			go func(g int) {
+				defer wg.Done()
+				api := st.GetInterface()
+				name := fmt.Sprintf("twin%d", g/2)
+				oks[g] = api.Add(name, "pw", g%2 == 0) == nil
+			}(g)
+		}
+		wg.Wait()
+		snap := ms.snapshotTerm()
+		nok := 0
+		for _, o := range oks {
+			if o {
+				nok++
+			}
+		}
+		viol := ""
+		for g := 0; g < 8; g += 2 {
+			if oks[g] && oks[g+1] {
+				viol = fmt.Sprintf("both add(twin%d, user) and add(twin%d, admin) were acknowledged", g/2, g/2)
+			}
+		}
+		em.emit(vCase{Prop: "C16", Kind: "concurrent-add", Class: "agent/concurrent-add", Nontrivial: true,
+			Coq:   fmt.Sprintf("ReloadGate %s %s true", ms.cfgTerm(), snap),
+			Human: map[string]interface{}{"acknowledged": nok}, Violation: viol})
+		ms.cleanup()
 	}
 	em.emit(vCase{Prop: "C16", Kind: "stats", Class: "stats", Human: vStats})
 }
